@@ -77,11 +77,14 @@ def rand_val(rng, want):
     r = rng.random()
     if r < 0.08:
         return rng.choice([["str"], ["int", 65], ["none"], ["list", bytes(rng.getrandbits(8) for _ in range(want)).hex()]])
-    if r < 0.16:
+    if r < 0.24:
         # an array cdata: carries its byte length (equal -> stored, different -> ValueError, since feea9b6)
-        k = want if rng.random() < 0.7 else max(0, want + rng.choice([-1, 1, 2]))
-        return ["cdata", bytes(rng.getrandbits(8) for _ in range(k)).hex(), rng.choice(["char", "short"])]
-    if r < 0.22:
+        # fixed T[k] and open T[] arrays (ffi.new('T[]', k), a slice p[a:b], from_buffer('T[]', obj)), byte
+        # size smaller / equal / larger than the slice
+        k = want if rng.random() < 0.5 else max(0, want + rng.choice([-2, -1, 1, 2, 4]))
+        return ["cdata", bytes(rng.getrandbits(8) for _ in range(k)).hex(), rng.choice(["char", "short"]),
+                rng.choice(["fixed", "new_open", "slice", "frombuf"])]
+    if r < 0.30:
         # a pointer cdata: no length of its own, the slice length is trusted; at least `want` bytes behind it
         return ["cdataptr", bytes(rng.getrandbits(8) for _ in range(want + rng.choice([0, 1, 3]))).hex(),
                 rng.choice(["char", "int"])]
@@ -211,7 +214,11 @@ def generate(ctx):
     # witness of the fixed finding cdata_slice_source (feea9b6), and its neighbours
     cases.append(dict(kind="hist", backing="cdata", init="6162636465666768", off=0, n=8, ops=[
         ["set", ["s", 0, 4, None], ["cdata", "5758595a", "char"]], ["set", ["s", 0, 4, None], ["cdata", "5758595a31", "char"]],
-        ["set", ["s", 4, 6, None], ["cdataptr", "313233", "char"]], ["set", ["s", 0, 4, None], ["cdata", "41414242", "short"]]]))
+        ["set", ["s", 4, 6, None], ["cdataptr", "313233", "char"]], ["set", ["s", 0, 4, None], ["cdata", "41414242", "short"]],
+        ["set", ["s", 0, 4, None], ["cdata", "6162636465", "char", "slice"]],
+        ["set", ["s", 0, 4, None], ["cdata", "6162", "char", "new_open"]],
+        ["set", ["s", 0, 4, None], ["cdata", "616263646566", "short", "frombuf"]],
+        ["set", ["s", 0, 4, None], ["cdata", "71727374", "char", "slice"]]]))
     return cases
 
 
@@ -300,17 +307,36 @@ def key_lit(k):
 def val_lit(v):
     if v[0] == "bytes":
         return "(VBytes %s)" % zl(bytes.fromhex(v[1]))
-    if v[0] in ("bytearray", "memoryview", "array", "cdata"):
+    if v[0] in ("bytearray", "memoryview", "array"):
         return "(VBuf %s)" % zl(bytes.fromhex(v[1]))
-    if v[0] == "cdataptr":
-        return "(VPtrSrc %s)" % zl(bytes.fromhex(v[1]))
     return "VOther"
+
+
+def is_cdata_val(v):
+    return v[0] in ("cdata", "cdataptr")
+
+
+def cdata_val_lit(v):
+    """option pyval: the cdata source as the regenerated _fetch_as_buffer presents it"""
+    data = bytes.fromhex(v[1])
+    if v[0] == "cdataptr":
+        isz = 1 if v[2] == "char" else 4
+        return "(cdata_source gen_fetch_len (mk_sd false 8 0 %d) %s)" % (isz, zl(data))
+    isz = {"char": 1, "short": 2}[v[2]]
+    if len(data) % isz:
+        isz = 1
+    k = len(data) // isz
+    how = v[3] if len(v) > 3 else "fixed"
+    ct_size = k * isz if how == "fixed" else -1
+    return "(cdata_source gen_fetch_len (mk_sd true (%d) %d %d) %s)" % (ct_size, k, isz, zl(data))
 
 
 def op_lit(op):
     if op[0] == "get":
         return "OGet " + key_lit(op[1])
     if op[0] == "set":
+        if is_cdata_val(op[2]):
+            return "OSet %s %s" % (key_lit(op[1]), cdata_val_lit(op[2]))
         return "OSet %s (Some %s)" % (key_lit(op[1]), val_lit(op[2]))
     if op[0] == "del":
         return "OSet %s None" % key_lit(op[1])
